@@ -25,6 +25,7 @@ from sa.pyfront import Program
 from sa.symex import Interp, flat_guards
 
 RULES = {
+    "R-C01-k": "the union kernel that merges the row sets of input values mapped to one category is a correct sorted-set union (imported from the C08 decision-table analysis: branches, no-overlap shortcuts, tail copies, returned prefix)",
     "R-C01-j": "from_array never divides by the share of uncommon rows while that share can be zero (every row at the common value, e.g. all values mapped onto it): the strategy choice is guarded against it",
     "R-C01-i": "the value mapping is applied exactly when one is given: with a mapping, the key of every construction store, the caller's explicit common value and the counts that elect the common value all go through it (counts by accumulation); without one, none does; to_array sizes its dtype from the entries' VALUES (coords[0])",
     "R-C01-h": "from_array and to_array leave the array, the counts mapping and the value mapping passed to them unchanged (imported from the C17 frame analysis): a second construction from the same caller-supplied counts then sees what the caller built",
@@ -611,6 +612,15 @@ def main(tier):
     st17 = {"events": 0, "mods": 0, "diagnostic": {}, "exceptions": {}, "regions": 0, "shortcuts": 0}
     for q17 in ("iindex.from_array", "iindex.to_array"):
         c17.analyse_root(prog, prog.func("iindexes", q17), "pure", rep, st17, RA="R-C01-h", RB="R-C01-h", extra=False)
+    # R-C01-k: a many-to-one mapping merges the row sets of several input values through set_operations.union; the
+    # kernel's decision tables, shortcuts and tail copies are C08's rules
+    import c08
+    sub8 = core.Report("C08", level="other", rules=c08.RULES, tier=tier)
+    n8 = c08.analyse_op(sub8, prog, "union")
+    for o in sub8.obls:
+        rep.add("R-C01-k", o.where, "[%s] %s" % (o.rule, o.construct), o.status, o.detail, True,
+                o.witness if o.status != "VIOLATED" else dict(o.witness or {}, history="from_array(a, mapping={1: 7, 2: 7}): the rows of 1 and 2 are merged by union() - a wrong union loses or duplicates rows of category 7"))
+    rep.floor("R-C01-k", 15, len(sub8.obls))
     import c19
     sub = core.Report("C19", level="proof", rules=c19.RULES, tier=tier)
     c19.analyse(prog, sub, False)
